@@ -525,6 +525,24 @@ impl Scratch {
     pub fn new(tag: &str) -> Scratch {
         static N: AtomicUsize = AtomicUsize::new(0);
         let base = if Path::new("/dev/shm").is_dir() { "/dev/shm" } else { "/var/tmp" };
+        // once per process: remove scratch directories of processes that no longer exist
+        // (a process that ends through exit() or a signal does not run destructors)
+        static SWEPT: std::sync::Once = std::sync::Once::new();
+        SWEPT.call_once(|| {
+            if let Ok(rd) = std::fs::read_dir(base) {
+                for e in rd.flatten() {
+                    let name = e.file_name().to_string_lossy().into_owned();
+                    let mut parts = name.split('-');
+                    if parts.next() != Some("verif") {
+                        continue;
+                    }
+                    let pid = parts.nth(1).unwrap_or("");
+                    if !pid.is_empty() && pid.bytes().all(|b| b.is_ascii_digit()) && !Path::new(&format!("/proc/{pid}")).exists() {
+                        let _ = std::fs::remove_dir_all(e.path());
+                    }
+                }
+            }
+        });
         let p = PathBuf::from(format!("{base}/verif-{}-{}-{}", tag, std::process::id(), N.fetch_add(1, Ordering::SeqCst)));
         let _ = std::fs::remove_dir_all(&p);
         std::fs::create_dir_all(&p).unwrap_or_else(|e| harness_error(&format!("mkdir {}: {e}", p.display())));
